@@ -480,6 +480,15 @@ def assigned_names(stmts):
     return names
 
 
+def flat_env(env):
+    """a plain-dict snapshot of an environment (ChainEnv: own names over the defining environment)"""
+    if isinstance(env, ChainEnv):
+        d = flat_env(env.parent)
+        d.update({k: dict.__getitem__(env, k) for k in env.own()})
+        return d
+    return dict(env)
+
+
 class ChainEnv(dict):
     """Local variables of a nested function call; other names resolve in the defining environment."""
 
@@ -777,12 +786,15 @@ class Interp:
             return
         if isinstance(it, ObjV) and '__iter__' in it.fields:
             it = self.call(it.fields['__iter__'], [it], {})
+        orig_it = it
         if isinstance(it, SeqV):
             it = IterV(it.at, it.length, it.name)
         if not isinstance(it, IterV):
             raise Unsupported('for over %s' % type(it).__name__)
         spec = self.loops.get(n)
         if spec is None:
+            if self.accumulator_loop(st, orig_it, env):
+                return
             raise Unsupported('for loop #%d without invariant' % n)
         p.assume(it.length >= 0)
         if getattr(spec, 'on_entry', None):
@@ -834,6 +846,58 @@ class Interp:
 
     def values_equal(self, a, b):
         return values_equal(a, b)
+
+    def accumulator_loop(self, st, it, env):
+        """A for-loop over a contract iterable whose body is `[x = e;] [if c:] acc.append(e)` with `acc` a local list that is
+        empty before the loop is the list comprehension [e for x in it if c] (same elements, same order; the local bindings
+        are evaluated per element, in order): handled by the comprehension closed form, so that this harmless reformulation
+        needs no new invariant."""
+        body = list(st.body)
+        steps = []
+        while True:
+            while len(body) > 1 and isinstance(body[0], ast.Assign) and len(body[0].targets) == 1 and isinstance(body[0].targets[0], ast.Name):
+                steps.append(('let', body[0].targets[0].id, body[0].value))
+                body = body[1:]
+            if len(body) == 1 and isinstance(body[0], ast.If) and not body[0].orelse:
+                steps.append(('if', body[0].test))
+                body = list(body[0].body)
+                continue
+            break
+        if len(body) != 1 or not isinstance(body[0], ast.Expr) or not isinstance(body[0].value, ast.Call):
+            return False
+        call = body[0].value
+        if not (isinstance(call.func, ast.Attribute) and call.func.attr == 'append' and isinstance(call.func.value, ast.Name)
+                and len(call.args) == 1 and not call.keywords):
+            return False
+        name = call.func.value.id
+        acc = env.get(name)
+        if not (isinstance(acc, ListV) and not acc.items and type(acc) is ListV):
+            return False
+        for node in ast.walk(st):            # the accumulator must not be used in the body other than by .append
+            if isinstance(node, ast.Name) and node.id == name and node is not call.func.value:
+                return False
+        letnames = {s_[1] for s_ in steps if s_[0] == 'let'}
+        if name in letnames:
+            return False
+        base_env = flat_env(env)
+
+        def run(k, want):
+            inner = dict(base_env)
+            self.assign(st.target, it.at(k), inner)
+            conds = []
+            for s_ in steps:
+                if s_[0] == 'let':
+                    inner[s_[1]] = self.eval(s_[2], inner)
+                else:
+                    conds.append(truthy(self.eval(s_[1], inner)))
+            if want == 'cond':
+                return And(*conds) if len(conds) > 1 else conds[0]
+            return self.eval(call.args[0], inner)
+        if any(s_[0] == 'if' for s_ in steps):
+            env[name] = FilterV(it, lambda k: run(k, 'cond'), lambda k: run(k, 'elt'))
+        else:
+            env[name] = IterV(lambda k: run(k, 'elt'), it.length, 'map(%s)' % it.name, getattr(it, 'facts', None))
+        return True
 
     def assign(self, tgt, v, env):
         if isinstance(tgt, ast.Name):
@@ -1016,7 +1080,7 @@ class Interp:
             if not isinstance(it, (IterV, SeqV)):
                 raise Unsupported('dict comprehension over %s' % type(it).__name__)
 
-            def kv(k, _it=it, _env=dict(env)):
+            def kv(k, _it=it, _env=flat_env(env)):
                 inner = dict(_env)
                 self.assign(g.target, _it.at(k), inner)
                 return self.eval(node.key, inner), self.eval(node.value, inner)
@@ -1071,28 +1135,28 @@ class Interp:
             it = self.call(it.fields['__iter__'], [it], {})
         if isinstance(it, (IterV, SeqV)) and not g.ifs and isinstance(node, (ast.GeneratorExp, ast.ListComp)):
             # element-wise closed form of a pure map over a contract iterable: same length, k-th element = elt[x := it[k]]
-            def at(k, _it=it, _env=dict(env)):
+            def at(k, _it=it, _env=flat_env(env)):
                 inner = dict(_env)
                 self.assign(g.target, _it.at(k), inner)
                 return self.eval(node.elt, inner)
             facts = getattr(it, 'facts', None)
             return IterV(at, it.length, 'map(%s)' % it.name, facts)
         if isinstance(it, FilterV) and not g.ifs and isinstance(node, (ast.GeneratorExp, ast.ListComp)):
-            def elt2(k, _it=it, _env=dict(env)):
+            def elt2(k, _it=it, _env=flat_env(env)):
                 inner = dict(_env)
                 self.assign(g.target, _it.elt(k), inner)
                 return self.eval(node.elt, inner)
             return FilterV(it.base, it.cond, elt2)
         if isinstance(it, (IterV, SeqV)) and g.ifs and isinstance(node, (ast.GeneratorExp, ast.ListComp)):
             # pure filter(+map) over a contract iterable: kept as a descriptor (base sequence, condition, element)
-            def cond(k, _it=it, _env=dict(env)):
+            def cond(k, _it=it, _env=flat_env(env)):
                 inner = dict(_env)
                 self.assign(g.target, _it.at(k), inner)
                 n0 = len(self.path.decisions)
                 cs = [truthy(self.eval(c, inner)) for c in g.ifs]
                 return And(*cs) if len(cs) > 1 else cs[0]
 
-            def elt(k, _it=it, _env=dict(env)):
+            def elt(k, _it=it, _env=flat_env(env)):
                 inner = dict(_env)
                 self.assign(g.target, _it.at(k), inner)
                 return self.eval(node.elt, inner)
@@ -1283,6 +1347,15 @@ class Interp:
             if ga is not None:
                 return ga(self.path, o, attr)
             raise Unsupported('attribute %s.%s' % (o.name or o.cls, attr))
+        if isinstance(o, IntV) and attr == 'bit_length':
+            # (x & -x).bit_length() through a local: the term is band(x, -x) -> tz(x) + 1
+            t = o.t
+            if z3.is_app(t) and t.decl().name() == 'band' and t.num_args() == 2:
+                a0, a1 = t.arg(0), t.arg(1)
+                for x, y in ((a0, a1), (a1, a0)):
+                    if z3.simplify(y + x).eq(IntVal(0)) if False else z3.eq(z3.simplify(-x), z3.simplify(y)):
+                        return FuncV('int.bit_length', lambda p, args, kw, _x=x: IntV(bits.tz(_x) + 1))
+            raise Unsupported('int.bit_length() other than the lowest-set-bit idiom')
         if isinstance(o, IntV):
             m = self.loops.get('int_methods', {})
             key = (o.tag, attr)
@@ -1363,6 +1436,14 @@ class Interp:
             if i.value not in o.items:
                 raise PyRaise('KeyError')
             return o.items[i.value]
+        if isinstance(o, MapV) and isinstance(i, IntV):
+            j = p.fresh_int('j')
+            kj, _ = o.kv(j)
+            if isinstance(kj, IntV) and z3.eq(kj.t, j):
+                # a dict keyed by position ({i: c for i, c in enumerate(seq)}): lookup = element at that position
+                p.oblige('key@dict-by-position', 'key', And(i.t >= 0, i.t < o.base.length))
+                return o.kv(i.t)[1]
+            raise Unsupported('lookup in a dict comprehension keyed by other than the position')
         raise Unsupported('subscript of %s' % type(o).__name__)
 
     def call(self, f, args, kwargs):
